@@ -12,6 +12,8 @@ package iavl
 
 //@ ghost tree.cur Int
 //@ ghost tree.saved (Array Int Bool)
+// tree.latest: the highest version saved in the tree's database (what LoadVersion(0) loads)
+//@ ghost tree.latest Int
 // environment oracles: whether the next save / the next delete of an existing version fails (disk error)
 //@ ghost tree.failsave Bool
 //@ ghost tree.faildel Bool
@@ -67,8 +69,12 @@ package iavl
 // C12: a store loaded from disk applies exactly the pruning policy it was loaded with.
 // tendermint/iavl's NewMutableTree / LoadVersion / LazyLoadVersion: /verif/spec/extern/iavl.go.txt.
 //@ func LoadStore(db dbm.DB, id types.CommitID, pruning types.PruningOptions, lazyLoading bool) (r types.CommitStore, err error)
-//@   props C12
+//@   props C12 C13
 //@   may_panic
+//@   modifies tree.cur
+// C13: the store is at the version the multistore asked for - after a crash the substore may have saved
+// a later version than the commit info names, and must then show the earlier one
+//@   ensures [atversion@C13] err == nil ==> tree.cur == id.Version
 //@   ensures [policy] err == nil ==> unbox(r, "*store/iavl.Store").numRecent == pruning.keepRecent && unbox(r, "*store/iavl.Store").storeEvery == pruning.keepEvery
 //@   ensures [typed] err == nil ==> dyntype(r) == typeid("*store/iavl.Store")
 //@   ensures [failed] err != nil ==> !ifacenotnil(r)
